@@ -6,6 +6,8 @@ import (
 	"reflect"
 	"sort"
 
+	"github.com/go-kid/ioc/app"
+	"github.com/go-kid/ioc/container"
 	"github.com/go-kid/ioc/container/processors"
 	"github.com/go-kid/ioc/container/support"
 
@@ -28,6 +30,7 @@ func init() {
 			{Name: "registration", Run: c07Reg, Workers: 1, QuickS: 30, ThoroughS: 120},
 			{Name: "processor-holders", Run: c07Proc, Workers: 2, QuickS: 30, ThoroughS: 60},
 			{Name: "failing-target", Run: c07Failing, Workers: 2, QuickS: 30, ThoroughS: 60},
+			{Name: "registered-under-another-name", Run: c07Renamed, Workers: 2, QuickS: 30, ThoroughS: 60},
 		},
 	})
 }
@@ -599,5 +602,119 @@ func c07Failing(c *core.Ctx) {
 			c.Outcome("failing-target/bound")
 		}
 		c.Sample(map[string]any{"case": cs, "error": scen.FirstLine(o.Err)})
+	})
+}
+
+// ---- a component registered (through a user-supplied singleton registry) under another name
+// than the one it declares itself
+
+type c07ModuleRegistry struct {
+	container.SingletonRegistry
+	qualified map[string]any
+	order     []string
+}
+
+func (r *c07ModuleRegistry) RegisterNamed(name string, c any) {
+	r.qualified[name] = c
+	r.order = append(r.order, name)
+}
+func (r *c07ModuleRegistry) GetSingleton(name string) (any, error) {
+	if c, ok := r.qualified[name]; ok {
+		return c, nil
+	}
+	return r.SingletonRegistry.GetSingleton(name)
+}
+func (r *c07ModuleRegistry) ContainsSingleton(name string) bool {
+	if _, ok := r.qualified[name]; ok {
+		return true
+	}
+	return r.SingletonRegistry.ContainsSingleton(name)
+}
+func (r *c07ModuleRegistry) GetSingletonNames() []string {
+	return append(r.SingletonRegistry.GetSingletonNames(), r.order...)
+}
+func (r *c07ModuleRegistry) GetSingletonCount() int { return len(r.GetSingletonNames()) }
+
+type c07RenamedCase struct {
+	Own      string `json:"declared_name"` // what the component's Naming() answers ("" = none)
+	Other    bool   `json:"another_component_registered_under_the_declared_name"`
+	Kind     string `json:"field_kind"`
+	Optional bool   `json:"optional"`
+	Desc     bool   `json:"descending_order,omitempty"`
+}
+
+func c07Renamed(c *core.Ctx) {
+	gen := func(yield func(c07RenamedCase) bool) {
+		for _, own := range []string{"primary", ""} {
+			for _, other := range []bool{false, true} {
+				if own == "" && other {
+					continue
+				}
+				for _, kind := range []string{"PA", "I1", "ANY"} {
+					for _, opt := range []bool{false, true} {
+						for _, desc := range []bool{false, true} {
+							if !yield(c07RenamedCase{own, other, kind, opt, desc}) {
+								return
+							}
+						}
+					}
+				}
+			}
+		}
+	}
+	Cases(c, gen, func(c *core.Ctx, cs c07RenamedCase) {
+		ft := map[string]reflect.Type{"PA": tPA, "I1": tI1, "ANY": tAny}[cs.Kind]
+		arg := ""
+		if cs.Optional {
+			arg = ",required=false"
+		}
+		holder := reflect.New(reflect.StructOf([]reflect.StructField{
+			{Name: "Q", Type: ft, Tag: reflect.StructTag(fmt.Sprintf(`wire:"orders.primary%s"`, arg))},
+			{Name: "Own", Type: ft, Tag: `wire:"primary,required=false"`},
+		}))
+		renamed := scen.BuildInst(scen.Inst{Typ: "TA", Name: cs.Own}, 0)
+		reg := &c07ModuleRegistry{SingletonRegistry: support.NewRegistry(), qualified: map[string]any{}}
+		reg.RegisterNamed("orders.primary", renamed)
+		comps := []any{holder.Interface()}
+		user := map[string]bool{"orders.primary": true}
+		var other any
+		if cs.Other {
+			other = scen.BuildInst(scen.Inst{Typ: "TA", Name: "primary"}, 1)
+			comps = append(comps, other)
+			user["primary"] = true
+		}
+		var base []string
+		if cs.Desc {
+			base = []string{"primary", "orders.primary"}
+		}
+		o := scen.Start(scen.StartSpec{Ch: envx.Fixed("", nil), Comps: comps, User: user, Base: base, Opts: []app.SettingOption{app.SetRegistry(reg)}})
+		c.S.Evaluations++
+		c.S.Programs++
+		c.S.States++
+		c.S.Nontrivial++
+		c.S.Transitions += int64(o.Trace.Calls)
+		key := "C07/renamed/" + core.Hash(cs)
+		desc := fmt.Sprintf("a *TA that declares the name %q is registered under \"orders.primary\" (another *TA registered under %q: %v); point `wire:\"orders.primary%s\"` of kind %s", cs.Own, "primary", cs.Other, arg, cs.Kind)
+		q, own := holder.Elem().Field(0).Interface(), holder.Elem().Field(1).Interface()
+		switch {
+		case o.Panic != "" || o.Abort != "" || len(o.ChildPanics) > 0:
+			c.Outcome("renamed/panic")
+			c.Report(key, "panic", desc+": start-up panicked: "+o.Panic+o.Abort, cs)
+		case o.Err != nil:
+			c.Outcome("renamed/spurious-error")
+			c.Report(key, "spurious-error", desc+": the named component exists and fits, but start-up failed: "+scen.FirstLine(o.Err), cs)
+		case q != renamed:
+			c.Outcome("renamed/wrong-component")
+			c.Report(key, "wrong-component", fmt.Sprintf("%s holds %s, want exactly the component registered under that name (%s)", desc, scen.IdOf(q), scen.IdOf(renamed)), cs)
+		case cs.Other && own != other:
+			c.Outcome("renamed/wrong-component")
+			c.Report(key, "wrong-component", fmt.Sprintf("%s: the optional point `wire:\"primary\"` holds %s, want the component registered under \"primary\" (%s)", desc, scen.IdOf(own), scen.IdOf(other)), cs)
+		case !cs.Other && own != nil && scen.IdOf(own) != "-":
+			c.Outcome("renamed/optional-touched")
+			c.Report(key, "optional-touched", fmt.Sprintf("%s: nothing is registered under \"primary\", but the optional point `wire:\"primary\"` holds %s", desc, scen.IdOf(own)), cs)
+		default:
+			c.Outcome("renamed/exactly-the-registered-one")
+		}
+		c.Sample(map[string]any{"case": cs})
 	})
 }
